@@ -66,6 +66,17 @@ class Report:
     def incomplete(self, what, site=None):
         self.bad("analysis-incomplete", what, "analysis incomplete (fail closed): " + what, site)
 
+    def violations_unknown(self):
+        """violations that are not listed as known findings (computed like finish does)"""
+        kf_path = os.path.join(VERIF, "known_findings.json")
+        known = set()
+        if os.path.exists(kf_path):
+            with open(kf_path) as fh:
+                for e in json.load(fh)["findings"]:
+                    if e["property"] == self.pid and e["status"] == "known":
+                        known.add(e["key"])
+        return [v for v in self.violations if v["key"] not in known]
+
     # -- finish --------------------------------------------------------------------------------
     def finish(self):
         kf_path = os.path.join(VERIF, "known_findings.json")
